@@ -43,14 +43,14 @@ def sym(E, p, kf):
     n = E.concretize(E.int("n", 1, p["n"]))
     dta, dtb = p.get("dta", "int64"), p.get("dtb", "int64")
     a = c14.gen_vals(E, n, dta, "a")
-    if kind == "reduce" and op in ("mean", "npmean"):
+    if kind == "reduce" and op in ("mean", "npmean") and dta != "bool":
         a = [E.int(f"a{i}", -1000, 1000) for i in range(n)]       # Int-represented: the mean is an abstract quotient of exact integers
     c = dict(a=a, b=None)
     if kind == "rr":
         c["b"] = c14.gen_vals(E, n, dtb, "b")
     elif kind == "concat":
         m = E.concretize(E.int("m", 1, p["n"]))
-        c["b"] = c14.gen_vals(E, m, "int64", "b")
+        c["b"] = c14.gen_vals(E, m, dtb, "b")
         if p.get("three"):
             c["c3"] = c14.gen_vals(E, E.concretize(E.int("m3", 1, 2)), "int64", "c")
     elif kind in ("rs", "sr", "opr"):
@@ -66,11 +66,22 @@ def sym(E, p, kf):
     conds = [specs.obs_goal(a_after, dict(k="array", flat=a, shape=[n], dtype=dta))]
     if kind == "rr":
         conds.append(specs.obs_goal(b_after, dict(k="array", flat=c["b"], shape=[n], dtype=dtb)))
+    if kind == "concat":
+        conds.append(specs.obs_goal(b_after, dict(k="array", flat=c["b"], shape=[len(c["b"])], dtype=dtb)))
     # expected dense result: the same ufunc on the dense arrays (symbolic numpy)
     da = typed(a, dta)
     if kind == "reduce":
         v = res["items"][1]
-        if op in ("sum", "npsum") and dta != "int64":
+        if dta == "bool" and op in ("sum", "npsum", "mean", "npmean", "max"):
+            cnt = z3.Sum([z3.If(x, 1, 0) for x in a])          # numpy counts the True elements
+            if op in ("sum", "npsum"):
+                conds.append(specs.eqv(v["val"], cnt))
+            elif op == "max":
+                conds.append(specs.eqv(v["val"], z3.Or(*a)))
+            else:
+                fdiv = z3.Function("uf_idiv_f64", z3.IntSort(), z3.IntSort(), z3.BitVecSort(64))
+                conds.append(specs.eqv(v["val"], fdiv(cnt, z3.IntVal(n))))
+        elif op in ("sum", "npsum") and dta != "int64":
             bits = c14.BITS[dta]
             ext = (lambda x: z3.SignExt(64 - bits, x)) if dta.startswith("int") else (lambda x: z3.ZeroExt(64 - bits, x))
             e = ext(a[0])
@@ -105,7 +116,7 @@ def sym(E, p, kf):
         s = pyint(c["s"])
         exp = da + s if op == "add" else da - s if op == "subtract" else s - da
     elif kind == "concat":
-        exp = np.concatenate([da, typed(c["b"], "int64")] + ([typed(c["c3"], "int64")] if c.get("c3") is not None else []))
+        exp = np.concatenate([da, typed(c["b"], dtb)] + ([typed(c["c3"], "int64")] if c.get("c3") is not None else []))
     tag, dense, ev, vv = res["items"]
     conds.append(specs.obs_goal(dense, dict(k="array", flat=cells(exp), shape=[exp.shape[0]], dtype=common.dtname(exp))))
     conds += c14.canon_conds(ev["flat"], vv["flat"], exp.shape[0], common.dtname(exp), distinct_neighbours=(kind == "rr"))
@@ -150,9 +161,9 @@ def conc(case):
     elif kind == "opr":
         e = da + c["s"] if op == "add" else da - c["s"] if op == "subtract" else c["s"] - da
     else:
-        e = np.concatenate([da, typed(c["b"], "int64")] + ([typed(c["c3"], "int64")] if c.get("c3") is not None else []))
+        e = np.concatenate([da, typed(c["b"], dtb)] + ([typed(c["c3"], "int64")] if c.get("c3") is not None else []))
     exp = dict(k="tuple", items=[dict(k="any"), A(cells(e), [len(e)], str(e.dtype)), dict(k="scalar", val=True, dtype="py")])
-    return got, dict(k="tuple", items=[exp, a_obs, b_obs if kind == "rr" else dict(k="any")])
+    return got, dict(k="tuple", items=[exp, a_obs, b_obs if kind in ("rr", "concat") else dict(k="any")])
 
 
 def _strip_sym(got):
@@ -190,6 +201,10 @@ def jobs(tier, seed):
         out.append(dict(kind="reduce", op="sum", n=n + 1, dta=dt))
     out.append(dict(kind="concat", op="concatenate", n=2 if q else 3))
     out.append(dict(kind="concat", op="concatenate", n=2, three=True))
+    for dta_, dtb_ in (("int8", "int16"), ("uint8", "int64"), ("int64", "uint8"), ("bool", "int8")):
+        out.append(dict(kind="concat", op="concatenate", n=2, dta=dta_, dtb=dtb_))      # numpy's promoted element type, values unchanged
+    for op in ("sum", "npsum", "mean", "max"):
+        out.append(dict(kind="reduce", op=op, n=n + 1, dta="bool"))
     out.append(dict(kind="rr", op="logical_or", n=n, dta="bool", dtb="bool"))
     out.append(dict(kind="rr", op="add", n=n, dta="uint8", dtb="int8"))
     return [dict(h="C16.arith", p=p) for p in out]
